@@ -142,7 +142,7 @@ class Check(CheckBase):
         for i in range(0, len(light), per):
             cases.append({'kind': 'init', 'batch': [(l, s) for l, s in light[i:i + per]], 'seed': i, 'backend': ['mem', 'local'][(i // per) % 2]})
         r = random.Random(f'C17/{self.seed}/pairs')
-        npairs = 60 if quick else 1500
+        npairs = 60 if quick else 9000
         for i in range(0, npairs, per):
             batch = []
             for _ in range(per):
@@ -155,11 +155,11 @@ class Check(CheckBase):
                         s[k] = copy.deepcopy(v)
                 batch.append((f'{l1} + {l2}', s))
             cases.append({'kind': 'init', 'batch': batch, 'seed': 1000 + i, 'backend': 'mem'})
-        for i in range(40 if quick else 400):
+        for i in range(40 if quick else 2400):
             rr = random.Random(f'C17/{self.seed}/chain/{i}')
             cases.append({'kind': 'chain', 'seed': rr.randrange(1 << 30),
                           'settings': gen.gen_settings(rr, encrypted=True, chunker=(8, 64))})
-        for i in range(4 if quick else 24):
+        for i in range(4 if quick else 96):
             cases.append({'kind': 'proc', 'seed': i, 'which': i})
         return cases
 
@@ -244,7 +244,6 @@ class Check(CheckBase):
             mx = (settings or {}).get('chunking', {}).get('max_length', 64) if isinstance((settings or {}).get('chunking'), dict) else 64
             sub = os.path.join(scratch, f'c{idx}')
             os.makedirs(sub)
-            src, truth = self._tree(sub, mx)
             store = membackend.Store(idx)
             local_dir = os.path.join(sub, 'repo')
             if case['backend'] == 'local':
@@ -278,6 +277,8 @@ class Check(CheckBase):
             except Exception as e:
                 accepted, err = False, e
             cls_label = label if single else 'pair'
+            # the data is sized for the chunker that will actually be in use: the requested one only if it was accepted
+            src, truth = self._tree(sub, mx if accepted else 64)
             if not accepted:
                 count('rejected')
                 classes.add(f'rejected|{cls_label}')
